@@ -23,7 +23,8 @@ META = {
              'is compared with the abstract model: one graph attacker per model attacker whose entry points and reached steps '
              'are exactly the existing nodes named by the model (overlapping entry points, unknown steps). Bounded-exhaustive: '
              'all sequences of length <= 4 (thorough 5) of 14 operations over 2 attackers x 3 nodes; non-trivial = history with '
-             'a removal or undo after a compromise; distinct = digest(start, history)'),
+             'a removal or undo after a compromise; distinct = digest(start, history)'
+             '; added strata: registrations that are refused (unknown step after known ones, id in use) followed by valid operations; attach again after a missing entry node came back through regenerate_graph'),
     'assumptions': ['identity-based comparison; attackers are told apart as objects, not by name or id'],
     'shards': {'quick': 8, 'thorough': 16},
     'quotas': {
